@@ -893,7 +893,130 @@ OOM_CALLS = [
     ("table_getitem", lambda o: o.tables.nodes[np.arange(o.n) % 2 == 0]),
     ("pair_coalescence_counts", lambda o: o.ts.pair_coalescence_counts() if o.ts.num_samples > 1 else None),
     ("relatedness_vector", lambda o: o.ts.genetic_relatedness_vector(np.ones((o.ts.num_samples, 1)), mode="branch")),
+    ("decapitate", lambda o: o.ts.decapitate(0.75)),
+    ("delete_sites", lambda o: o.tables.copy().delete_sites([0]) if o.ts.num_sites else None),
+    ("trim", lambda o: _nomig(o.tables).trim()),
+    ("squash", lambda o: o.tables.copy().edges.squash()),
+    ("sort_individuals", lambda o: o.tables.copy().sort_individuals()),
+    ("dedup_sites", lambda o: o.tables.copy().deduplicate_sites()),
+    ("compute_mutation_times", lambda o: o.tables.copy().compute_mutation_times()),
+    ("build_index", lambda o: o.tables.copy().build_index()),
+    ("variant_samples", lambda o: [v.genotypes.sum() for v in o.ts.variants(samples=list(range(o.n)), isolated_as_missing=False)]),
+    ("variant_alleles", lambda o: [v.genotypes.sum() for v in o.ts.variants(alleles=tuple(gen.ALLELES), isolated_as_missing=False)]),
+    ("haplotypes", lambda o: list(o.ts.haplotypes(isolated_as_missing=False))),
+    ("as_vcf", lambda o: o.ts.as_vcf(allow_position_zero=True)),
+    ("newick_labels", lambda o: [t.as_newick(root=r, node_labels={0: "a"}) for t in o.ts.trees() for r in t.roots]),
+    ("nexus", lambda o: o.ts.as_nexus(include_alignments=False)),
+    ("ibd_between", lambda o: _ibd(o.ts.ibd_segments(between=[list(o.samples[:1]), list(o.samples[1:])], store_pairs=True)) if len(o.samples) > 1 else None),
+    ("tables.ibd", lambda o: _ibd(o.tables.ibd_segments(within=list(range(o.n)), store_segments=True, store_pairs=True))),
+    ("relatedness_weighted", lambda o: o.ts.genetic_relatedness_weighted(np.ones((o.ts.num_samples, 2)), mode="branch")),
+    ("relatedness_matrix", lambda o: o.ts.genetic_relatedness_matrix(mode="branch")),
+    ("trait_covariance", lambda o: o.ts.trait_covariance(np.arange(o.ts.num_samples, dtype=float).reshape(-1, 1), mode="branch")),
+    ("trait_linear_model", lambda o: o.ts.trait_linear_model(np.arange(o.ts.num_samples, dtype=float).reshape(-1, 1), mode="site")),
+    ("Fst", lambda o: o.ts.Fst([list(o.samples[:1]), list(o.samples[1:])], mode="site") if len(o.samples) > 1 else None),
+    ("f4", lambda o: o.ts.f4([list(o.samples)] * 4, mode="branch")),
+    ("Y3", lambda o: o.ts.Y3([list(o.samples)] * 3, mode="node")),
+    ("segregating_sites", lambda o: o.ts.segregating_sites(windows="trees", mode="site")),
+    ("Tajimas_D", lambda o: o.ts.Tajimas_D(mode="site")),
+    ("afs_site_2d", lambda o: o.ts.allele_frequency_spectrum([list(o.samples[:1]), list(o.samples[1:])], mode="site") if len(o.samples) > 1 else None),
+    ("divmat_site_windows", lambda o: o.ts.divergence_matrix(windows=[0, o.L / 2, o.L], mode="site")),
+    ("divmat_threads", lambda o: o.ts.divergence_matrix(num_threads=2, mode="branch")),
+    ("count_topologies", lambda o: o.ts.first().count_topologies(sample_sets=[list(o.samples[:1]), list(o.samples[1:])]) if len(o.samples) > 1 else None),
+    ("edge_diffs", lambda o: [len(x[1]) for x in o.ts.edge_diffs()]),
+    ("coiterate", lambda o: [iv.left for iv, _, _ in o.ts.coiterate(o.ts)]),
+    ("kc_tree", lambda o: o.ts.first(sample_lists=True).kc_distance(o.ts.last(sample_lists=True))),
+    ("ld_calc", lambda o: tskit.LdCalculator(o.ts).r2_matrix() if o.ts.num_sites else None),
+    ("ld_matrix_branch", lambda o: o.ts.ld_matrix(mode="branch", positions=[[0.0, o.L / 2]])),
+    ("tree_ops", lambda o: _tree_ops(o)),
+    ("asdict_ts", lambda o: o.ts.tables.asdict()),
+    ("dump_tables", lambda o: o.ts.dump_tables().equals(o.tables)),
+    ("dump_text", lambda o: _dump_text(o.ts, 6)),
+    ("load_text", lambda o: _text_roundtrip(o.ts)),
+    ("ts_load_dump", lambda o: _ts_file_roundtrip(o.ts)),
+    ("table_ops", lambda o: _table_ops(o)),
+    ("pickle", lambda o: __import__("pickle").loads(__import__("pickle").dumps(o.ts)).num_trees),
+    ("individuals_arrays", lambda o: (o.ts.individuals_time, o.ts.individuals_population, o.ts.individuals_location if _rect(o.ts) else None)),
+    ("impute_times", lambda o: o.ts.impute_unknown_mutations_time()),
+    ("pair_coalescence_rates", lambda o: o.ts.pair_coalescence_rates(np.array([0.0, 1.0, INF])) if o.ts.num_samples > 1 else None),
+    ("pair_coalescence_quantiles", lambda o: o.ts.pair_coalescence_quantiles(np.array([0.25, 0.5])) if o.ts.num_samples > 1 else None),
+    ("unrank", lambda o: tskit.Tree.unrank(5, (2, 3)).rank()),
+    ("split_polytomies", lambda o: o.ts.first().split_polytomies(random_seed=1).num_edges if o.ts.first().num_roots == 1 else None),
+    ("reference_sequence", lambda o: _refseq(o)),
+    ("metadata_schema", lambda o: _schema_ops(o)),
 ]
+
+
+def _tree_ops(o):
+    t = tskit.Tree(o.ts, sample_lists=True, tracked_samples=list(o.samples[:2]), root_threshold=2)
+    out = []
+    t.first()
+    while t.next():
+        out.append(t.num_edges)
+    t.seek(o.L / 3)
+    t.seek_index(0)
+    c = t.copy()
+    c.last()
+    while c.prev():
+        out.append(c.num_tracked_samples(c.virtual_root))
+    out.append(list(c.nodes(order="minlex_postorder")))
+    out.append([list(t.samples(u)) for u in range(o.n)])
+    return out
+
+
+def _table_ops(o):
+    c = o.tables.copy()
+    n = c.nodes
+    n.set_columns(flags=n.flags, time=n.time, population=n.population, individual=n.individual, metadata=n.metadata, metadata_offset=n.metadata_offset)
+    n.append_columns(flags=n.flags, time=n.time, metadata=n.metadata, metadata_offset=n.metadata_offset)
+    n.keep_rows(np.arange(n.num_rows) < o.n)
+    n.truncate(o.n)
+    n.packset_metadata([b"abc"] * n.num_rows)
+    c.individuals.keep_rows(np.ones(c.individuals.num_rows, dtype=bool))
+    c.mutations.keep_rows(np.ones(c.mutations.num_rows, dtype=bool))
+    c.sites[0:1]
+    c.edges[np.arange(c.edges.num_rows) % 2 == 0]
+    c.drop_index()
+    c.clear(clear_provenance=True)
+    return n.num_rows
+
+
+def _text_roundtrip(ts):
+    import io
+    fs = {k: io.StringIO() for k in ("nodes", "edges", "sites", "mutations", "individuals", "populations", "migrations")}
+    ts.dump_text(precision=6, **fs)
+    for f in fs.values():
+        f.seek(0)
+    return tskit.load_text(strict=False, **fs).num_nodes
+
+
+def _ts_file_roundtrip(ts):
+    with tempfile.NamedTemporaryFile() as f:
+        ts.dump(f.name)
+        a = tskit.load(f.name)
+        b = tskit.load(f.name, skip_tables=True)
+        return a.num_trees, b.num_nodes
+
+
+def _refseq(o):
+    c = o.tables.copy()
+    c.reference_sequence.data = "ACGT" * 10
+    c.reference_sequence.url = "x"
+    c.reference_sequence.metadata_schema = tskit.MetadataSchema({"codec": "json"})
+    c.reference_sequence.metadata = {"a": 1}
+    d = c.copy()
+    return d.reference_sequence.data, d.equals(c), c.tree_sequence().reference_sequence.data
+
+
+def _schema_ops(o):
+    c = o.tables.copy()
+    sch = tskit.MetadataSchema({"codec": "struct", "type": "object", "properties": {"a": {"type": "integer", "binaryFormat": "i"}}})
+    c.populations.metadata_schema = sch
+    c.populations.clear()
+    c.populations.add_row(metadata={"a": 5})
+    c.metadata_schema = tskit.MetadataSchema({"codec": "json"})
+    c.metadata = {"k": [1, 2, 3]}
+    c.time_units = "generations"
+    return c.populations[0].metadata, c.copy().metadata
 
 
 def _add_rows(o):
